@@ -30,6 +30,9 @@ def _contains_return(st) -> bool:
 
 
 def _walk_no_defs(node):
+    if isinstance(node, (ast.FunctionDef, ast.AsyncFunctionDef, ast.Lambda, ast.ClassDef)):
+        yield node
+        return
     stack = [node]
     while stack:
         n = stack.pop()
@@ -59,6 +62,9 @@ def _lower(stmts: list, conv) -> list:
         if isinstance(st, ast.Return):
             out.extend(conv(st))
             return out
+        if isinstance(st, (ast.FunctionDef, ast.AsyncFunctionDef, ast.ClassDef)):
+            out.append(st)
+            continue
         if isinstance(st, ast.If) and _contains_return(st):
             rest = stmts[i + 1 :]
             b_ret, o_ret = _always_returns(st.body), _always_returns(st.orelse)
@@ -81,8 +87,40 @@ def _lower(stmts: list, conv) -> list:
             new_with.body = _lower(st.body, conv) or [ast.copy_location(ast.Pass(), st)]
             out.append(new_with)
             return out
+        if isinstance(st, (ast.For, ast.AsyncFor)) and _contains_return(st) and not st.orelse:
+            # a search loop: `for x in xs: if c: return v` + rest  ->  the returns leave the
+            # loop with `break`, the rest of the body runs in the loop's `else`
+            new_for = copy.copy(st)
+            new_for.body = _loop_returns_to_breaks(st.body, conv)
+            new_for.orelse = _lower(stmts[i + 1 :], conv)
+            out.append(new_for)
+            return out
         if _contains_return(st):
             raise NotInlinable("return inside a loop / try / with")
+        out.append(st)
+    return out
+
+
+def _loop_returns_to_breaks(stmts: list, conv) -> list:
+    out = []
+    for st in stmts:
+        if isinstance(st, ast.Return):
+            out.extend(conv(st))
+            out.append(ast.copy_location(ast.Break(), st))
+            return out
+        if isinstance(st, ast.Break):
+            raise NotInlinable("search loop with a break of its own")
+        if isinstance(st, (ast.FunctionDef, ast.AsyncFunctionDef, ast.ClassDef)):
+            out.append(st)
+            continue
+        if isinstance(st, ast.If):
+            new_if = copy.copy(st)
+            new_if.body = _loop_returns_to_breaks(st.body, conv) or [ast.copy_location(ast.Pass(), st)]
+            new_if.orelse = _loop_returns_to_breaks(st.orelse, conv)
+            out.append(new_if)
+            continue
+        if _contains_return(st) or any(isinstance(n, ast.Break) for n in _loop_level([st])):
+            raise NotInlinable("return inside a nested loop / try / with of a loop")
         out.append(st)
     return out
 
@@ -321,11 +359,20 @@ class Inliner:
             if has_raise and not has_value_return and not mutates and not awaits:
                 # a shared guard (several call sites) is an anchor of the guard rules and stays;
                 # a guard extracted for a single caller is just a moved block
-                if self._call_site_count(f) != 1:
+                if self._call_site_count(f) != 1 and self._reads_instance_state(f):
                     continue
             # docstring-only / trivial bodies are not worth it
             out[id(f)] = f
         return out
+
+    @staticmethod
+    def _reads_instance_state(f: FuncInfo) -> bool:
+        """A guard that looks at the object's state (`self._state`) as opposed to one that only
+        validates its arguments."""
+        if f.cls is None or "staticmethod" in f.decorators or not f.node.args.args:
+            return False
+        me = f.node.args.args[0].arg
+        return any(isinstance(n, ast.Attribute) and isinstance(n.value, ast.Name) and n.value.id == me for n in walk_own(f.node))
 
     def generator_candidates(self) -> dict:
         """Private synchronous generator helpers whose yields are plain statements: a
@@ -490,8 +537,13 @@ class Inliner:
     # ------------------------------------------------------------------ one call site
     def _expand(self, caller: FuncInfo, stmt, call: ast.Call, awaited: bool, g: FuncInfo, mode: str, target):
         """Statements replacing `stmt`.  mode: 'expr' | 'assign' | 'return'"""
+        await_results = False
         if g.is_async != awaited:
-            raise NotInlinable("await mismatch")
+            # `await helper(...)` with a synchronous helper that hands back an awaitable: the
+            # helper's body runs at the call, every value it returns is awaited in its place
+            if not awaited or g.is_async or not _always_returns(g.node.body) or any(isinstance(n, ast.Return) and n.value is None for n in walk_own(g.node)):
+                raise NotInlinable("await mismatch")
+            await_results = True
         n = next(self.counter)
         prefix = f"_inl{n}_"
         a = g.node.args
@@ -550,6 +602,11 @@ class Inliner:
             body = body[1:]
         ren = _Renamer(rename, subst)
         body = [ren.visit(s) for s in body]
+        if await_results:
+            for st_ in body:
+                for r_ in _walk_no_defs(st_):
+                    if isinstance(r_, ast.Return):
+                        r_.value = ast.copy_location(ast.Await(value=r_.value), r_.value)
         if a.vararg is not None:
             # `callee(*args)` inside the helper becomes `callee(<the extra positional arguments>)`
             if not all(_simple(x) for x in extra_pos):
@@ -577,6 +634,15 @@ class Inliner:
                 new.append(ast.copy_location(ast.Return(value=None), stmt))
         else:
             def conv(ret: ast.Return) -> list:
+                if mode == "assign" and isinstance(target, ast.Tuple):
+                    # `a, b = helper(...)`: every return must give the elements one by one
+                    elts = self._tuple_elements(ret.value, len(target.elts))
+                    if elts is None:
+                        raise NotInlinable("tuple target, return value is not an explicit tuple / record")
+                    tnames = {t.id for t in target.elts}
+                    if any(isinstance(x, ast.Name) and x.id in tnames for e in elts for x in ast.walk(e)):
+                        return [ast.copy_location(ast.Assign(targets=[copy.deepcopy(target)], value=ast.Tuple(elts=elts, ctx=ast.Load()), lineno=ret.lineno), ret)]
+                    return [ast.copy_location(ast.Assign(targets=[ast.Name(id=t.id, ctx=ast.Store())], value=e, lineno=ret.lineno), ret) for t, e in zip(target.elts, elts)]
                 if mode == "assign":
                     val = ret.value if ret.value is not None else ast.Constant(value=None)
                     return [ast.copy_location(ast.Assign(targets=[copy.deepcopy(target)], value=val, lineno=ret.lineno), ret)]
@@ -592,6 +658,8 @@ class Inliner:
                 if _return_in_loop(body):
                     raise
                 lowered = [ast.copy_location(ast.While(test=ast.Constant(value=True), body=_returns_to_breaks(copy.deepcopy(body), conv) + [ast.copy_location(ast.Break(), stmt)], orelse=[]), stmt)]
+            if mode == "assign" and isinstance(target, ast.Tuple) and not _always_returns(g.node.body):
+                raise NotInlinable("tuple target, helper may fall off its end")
             if mode == "assign" and not _always_returns(g.node.body):
                 # falls off the end: result is None on that path -> pre-assign
                 binds.append(ast.copy_location(ast.Assign(targets=[copy.deepcopy(target)], value=ast.Constant(value=None), lineno=stmt.lineno), stmt))
@@ -608,6 +676,32 @@ class Inliner:
                     sub._inlined_relpath = g.module.relpath  # type: ignore[attr-defined]
         self.log.append(f"{g.qualname} -> {caller.qualname}:{stmt.lineno}")
         return new
+
+    def _tuple_elements(self, value, arity: int):
+        """The element expressions of a returned tuple literal or private NamedTuple
+        constructor call, or None."""
+        if isinstance(value, ast.Tuple) and len(value.elts) == arity and not any(isinstance(e, ast.Starred) for e in value.elts):
+            return list(value.elts)
+        if isinstance(value, ast.Call) and isinstance(value.func, ast.Name):
+            rec = self.record_classes().get(value.func.id)
+            if rec is None or not rec[2]:
+                return None
+            _ci, fields, _nt = rec
+            if len(fields) != arity or any(isinstance(a_, ast.Starred) for a_ in value.args) or any(k.arg is None for k in value.keywords):
+                return None
+            vals = {}
+            for i, a_ in enumerate(value.args):
+                if i < len(fields):
+                    vals[fields[i]] = a_
+            for k in value.keywords:
+                vals[k.arg] = k.value
+            if set(vals) != set(fields):
+                return None
+            # keyword arguments are evaluated in call order; only reorder when that is invisible
+            if value.keywords and [k.arg for k in value.keywords] != fields[len(value.args):] and not all(_simple(v) for v in vals.values()):
+                return None
+            return [vals[fl] for fl in fields]
+        return None
 
     def _carry_imports(self, caller: FuncInfo, g: FuncInfo, stmts: list) -> None:
         """A body moved into another module keeps meaning the same globals: names of the
@@ -756,6 +850,10 @@ class Inliner:
                 for c in ast.iter_child_nodes(n):
                     parents[id(c)] = n
             for v, bl in binds.items():
+                if len(bl) > 1 and stores.get(v) == len(bl) and v not in f.params:
+                    if self._scalarise_multi(f, v, bl, recs, parents):
+                        changed = True
+                    continue
                 if len(bl) != 1 or stores.get(v) != 1 or v in f.params:
                     continue
                 kind, bnode = bl[0]
@@ -898,6 +996,65 @@ class Inliner:
             ast.fix_missing_locations(mod.tree)
         return changed
 
+    def _scalarise_multi(self, f: FuncInfo, v: str, bl: list, recs: dict, parents: dict) -> bool:
+        """A record local bound on several branches, every time by a constructor call of the
+        same private record class, and only read field by field / splatted."""
+        cname = None
+        for kind, bnode in bl:
+            if kind != "assign" or not isinstance(bnode.value, ast.Call):
+                return False
+            cal = self.a.callee(f, bnode.value)
+            if cal.kind != "class" or cal.cls is None or cal.cls.name not in recs or (cname is not None and cal.cls.name != cname):
+                return False
+            cname = cal.cls.name
+            call = bnode.value
+            if any(isinstance(a_, ast.Starred) for a_ in call.args) or any(k.arg is None for k in call.keywords):
+                return False
+        ci, fields, is_nt = recs[cname]
+        loads = [n for n in walk_own(f.node) if isinstance(n, ast.Name) and n.id == v and isinstance(n.ctx, ast.Load)]
+        if not loads or any(v in {x.id for x in ast.walk(g.node) if isinstance(x, ast.Name)} for g in self.p.all_functions() if g.parent is f):
+            return False
+        splats, reads = [], []
+        for ld in loads:
+            par = parents.get(id(ld))
+            if isinstance(par, ast.Attribute) and par.value is ld and isinstance(par.ctx, ast.Load) and par.attr in fields:
+                reads.append((ld, par))
+            elif is_nt and isinstance(par, ast.Starred) and isinstance(parents.get(id(par)), ast.Call) and par in parents[id(par)].args:
+                splats.append((ld, par, parents[id(par)]))
+            else:
+                return False
+        names = {fl: f"{v}__{fl}" for fl in fields}
+        plans = []
+        for _kind, bnode in bl:
+            call = bnode.value
+            vals = {}
+            for i, a_ in enumerate(call.args):
+                if i < len(fields):
+                    vals[fields[i]] = a_
+            for k in call.keywords:
+                vals[k.arg] = k.value
+            if set(vals) != set(fields):
+                return False
+            plans.append((bnode, [ast.copy_location(ast.Assign(targets=[ast.Name(id=names[fl], ctx=ast.Store())], value=vals[fl], lineno=bnode.lineno), bnode) for fl in fields]))
+        for bnode, new in plans:
+            if not self._replace_stmt(f.node, bnode, new):
+                return False
+        for _ld, star, call in splats:
+            k = call.args.index(star)
+            call.args[k : k + 1] = [ast.copy_location(ast.Name(id=names[fl], ctx=ast.Load()), star) for fl in fields]
+        for _ld, par in reads:
+            gp = parents.get(id(par))
+            repl = ast.copy_location(ast.Name(id=names[par.attr], ctx=ast.Load()), par)
+            for fld_, val in ast.iter_fields(gp):
+                if val is par:
+                    setattr(gp, fld_, repl)
+                elif isinstance(val, list):
+                    for i_, x in enumerate(val):
+                        if x is par:
+                            val[i_] = repl
+        self.log.append(f"record {cname} scalarised (several bindings): {v} in {f.qualname}")
+        return True
+
     @staticmethod
     def _replace_stmt(root, old, new_list) -> bool:
         for n in ast.walk(root):
@@ -953,6 +1110,31 @@ class Inliner:
             test, neg = st.test, False
             if isinstance(test, ast.UnaryOp) and isinstance(test.op, ast.Not):
                 test, neg = test.operand, True
+            # `if (x := helper(...)) is not None:` - the walrus is evaluated first: bind in front
+            lead = test
+            if isinstance(lead, ast.Compare):
+                lead = lead.left
+            if isinstance(lead, ast.NamedExpr) and isinstance(lead.target, ast.Name):
+                wv = lead.value
+                winner = wv.value if isinstance(wv, ast.Await) else wv
+                if isinstance(winner, ast.Call):
+                    c = self.a.callee(f, winner)
+                    if c.kind == "func" and id(c.func) in cands and id(c.func) not in getattr(self, "gen_cands", {}) and c.func is not f and not (isinstance(winner.func, ast.Attribute) and not _simple(winner.func.value)):
+                        try:
+                            pre = self._expand(f, st, winner, isinstance(wv, ast.Await), c.func, "assign", ast.Name(id=lead.target.id, ctx=ast.Store()))
+                        except NotInlinable as e:
+                            self.log.append(f"not inlined {c.func.qualname} in {f.qualname}: {e}")
+                            return None
+                        use = ast.copy_location(ast.Name(id=lead.target.id, ctx=ast.Load()), lead)
+                        if isinstance(test, ast.Compare) and test.left is lead:
+                            test.left = use
+                        elif neg:
+                            st.test.operand = use
+                        else:
+                            st.test = use
+                        ast.fix_missing_locations(st)
+                        return pre + [st]
+                return None
             inner = test.value if isinstance(test, ast.Await) else test
             if isinstance(inner, ast.Call):
                 c = self.a.callee(f, inner)
@@ -968,6 +1150,28 @@ class Inliner:
                     ast.fix_missing_locations(st)
                     return pre + [st]
             return None
+        if isinstance(st, (ast.With, ast.AsyncWith)) and st.items and isinstance(st.items[0].context_expr, ast.Call):
+            # `with helper(...) as x:` - the context expression is evaluated first, so the
+            # helper's body can run in front of the statement
+            inner = st.items[0].context_expr
+            c = self.a.callee(f, inner)
+            if c.kind == "func" and id(c.func) in cands and id(c.func) not in getattr(self, "gen_cands", {}) and c.func is not f and not c.func.is_async and not (isinstance(inner.func, ast.Attribute) and not _simple(inner.func.value)):
+                tmp = ast.Name(id=f"_inl{next(self.counter)}_cm", ctx=ast.Store())
+                try:
+                    pre = self._expand(f, st, inner, False, c.func, "assign", tmp)
+                except NotInlinable as e:
+                    self.log.append(f"not inlined {c.func.qualname} in {f.qualname}: {e}")
+                    return None
+                last = pre[-1] if pre else None
+                if isinstance(last, ast.Assign) and len(last.targets) == 1 and isinstance(last.targets[0], ast.Name) and last.targets[0].id == tmp.id:
+                    # the helper ends in `return <expr>`: the expression takes the call's place
+                    st.items[0].context_expr = last.value
+                    pre = pre[:-1]
+                else:
+                    st.items[0].context_expr = ast.copy_location(ast.Name(id=tmp.id, ctx=ast.Load()), inner)
+                ast.fix_missing_locations(st)
+                return pre + [st]
+            return None
         mode, target, value = None, None, None
         if isinstance(st, ast.Expr):
             mode, value = "expr", st.value
@@ -975,6 +1179,8 @@ class Inliner:
             mode, target, value = "assign", st.targets[0], st.value
         elif isinstance(st, ast.AnnAssign) and isinstance(st.target, ast.Name) and st.value is not None:
             mode, target, value = "assign", st.target, st.value
+        elif isinstance(st, ast.Assign) and len(st.targets) == 1 and isinstance(st.targets[0], ast.Tuple) and all(isinstance(t, ast.Name) for t in st.targets[0].elts):
+            mode, target, value = "assign", st.targets[0], st.value
         elif isinstance(st, ast.Return) and st.value is not None:
             mode, value = "return", st.value
         if mode is None:
